@@ -28,6 +28,7 @@ type scope struct {
 	preferLocal bool // local(x): an address-taken parameter is read from its cell (current value), not its entry value
 	world       int  // world index "W" refers to
 	nq          int
+	guardCallee string         // evaluating a guard on a call of this callee (lastarg of it = the previous call)
 	freeCells   map[string]Val // captured variables of a closure whose contract is applied at a call site (cell addresses)
 	pkg         *ssa.Package // package whose constants / variables are in scope (callee contracts)
 }
@@ -41,7 +42,7 @@ func (s *scope) addVars(m map[string]Val) {
 }
 
 func (s *scope) child() *scope {
-	n := &scope{vars: map[string]Val{}, extra: s.extra, oldHeap: s.oldHeap, oldWorlds: s.oldWorlds, inOld: s.inOld, inQuant: s.inQuant, world: s.world, nq: s.nq, pkg: s.pkg, preferLocal: s.preferLocal, headHeap: s.headHeap, headWorlds: s.headWorlds, headCounts: s.headCounts, headSyms: s.headSyms, inHead: s.inHead, freeCells: s.freeCells}
+	n := &scope{vars: map[string]Val{}, extra: s.extra, oldHeap: s.oldHeap, oldWorlds: s.oldWorlds, inOld: s.inOld, inQuant: s.inQuant, world: s.world, nq: s.nq, pkg: s.pkg, preferLocal: s.preferLocal, headHeap: s.headHeap, headWorlds: s.headWorlds, headCounts: s.headCounts, headSyms: s.headSyms, inHead: s.inHead, freeCells: s.freeCells, guardCallee: s.guardCallee}
 	for k, v := range s.vars {
 		n.vars[k] = v
 	}
@@ -1019,6 +1020,13 @@ func (x *Exec) evalCall(st *State, fr *Frame, e ECall, sc *scope) (Val, error) {
 			for _, key := range sortedKeys(st.meta) {
 				if strings.HasPrefix(key, "args:") && matchCallee(lit.V, key[5:]) {
 					v := st.meta[key]
+					if sc.guardCallee != "" && key[5:] == sc.guardCallee {
+						pv, ok := st.meta["prevargs:"+key[5:]]
+						if !ok {
+							continue // first call of this callee: there is no earlier one
+						}
+						v = pv
+					}
 					if k >= 0 && k < len(v.Tup) {
 						return v.Tup[k], nil
 					}
